@@ -142,7 +142,8 @@ static void client_task(const Plan *pl) {
         int last_cond = -1;
         uint8_t buf[64];
         bool sent = false;
-        for (int it = 0; it < 100000 && !G->stopping && !DX->have_outcome; it++) {
+        int it = 0;
+        for (; it < 20000 && !G->stopping && !DX->have_outcome; it++) {
             int d = driver == 3 ? (int)G->r_app.below(3) : driver;
             int rc, cond;
             if (d == 0) { rc = x_finish(x); cond = 0; if (rc == 0) { record(true, 0); break; } }
@@ -157,6 +158,9 @@ static void client_task(const Plan *pl) {
             last_cond = cond;
             if (!x_wait(x)) break;
         }
+        if (it >= 20000 && !DX->have_outcome)
+            G->violation("C13.spin", "the event loop (driver %d: %s) was woken 20000 times without the connection attempt producing an outcome: the descriptor stays readable while the call keeps reporting EAGAIN",
+                         driver, driver == 0 ? "xcm_finish only" : driver == 1 ? "xcm_send then xcm_finish" : driver == 2 ? "xcm_receive only" : "mixed");
     }
     if (DX->connected && !got_greeting) {
         // let the greeting arrive so that the listener side's record of the connection is complete
